@@ -255,8 +255,15 @@ def run(ck, facts):
     cf = tool.fn("cpp::formatter::Cpp2Formatter::fmt_param_name")
     ck.expect(any(x.get("k") == "mcall" and x.get("m") == "fmt_identifier" for x in C.calls_in(C.fn_body(cf))), "R4", "cpp::fmt_param_name/escape", "", "C++ parameter names are no longer escaped with fmt_identifier", C.loc(cf))
     kw = json.load(open(os.path.join(C.VERIF, "spec", "keywords.json")))
-    st = {s["path"].split("::")[-1]: s for s in tool.data.get("statics", []) if "fmt_identifier" in s["path"] and "c::formatter" in s["path"]}
     fi = tool.fn("c::formatter::CFormatter::fmt_identifier")
+    # the keyword tables: the statics fmt_identifier names (wherever they are declared), and the statics those are built from
+    all_st = {s["path"]: s for s in tool.data.get("statics", [])}
+    st, todo_ = {}, [C.fn_body(fi)]
+    while todo_:
+        for x in C.walk(todo_.pop()):
+            if x.get("k") == "def" and x.get("p") in all_st and x["p"].split("::")[-1] not in st:
+                st[x["p"].split("::")[-1]] = all_st[x["p"]]
+                todo_.append(all_st[x["p"]]["hir"]["body"])
 
     def table_words(name, seen=()):
         s_ = st[name]
@@ -284,7 +291,7 @@ def run(ck, facts):
         cset = table_words(c_tab)
         cppset = table_words(cpp_tab)
         miss_c = sorted(set(kw["c"]) - cset)
-        miss_cpp = sorted(set(kw["cpp"]) - cppset)
+        miss_cpp = sorted((set(kw["cpp"]) | set(kw["cpp20"])) - cppset)     # the generated C++ must compile as C++17 and as C++20
         ck.expect(not miss_c, "R4", "fmt_identifier/C-keywords", "table %s: %d words, all %d C11 keywords covered" % (c_tab, len(cset), len(kw["c"])),
                   "in C mode fmt_identifier consults %s, which misses the C keywords %s: a parameter with such a name yields a header that is not valid C" % (c_tab, miss_c), C.loc(fi))
         ck.expect(not miss_cpp, "R4", "fmt_identifier/C++-keywords", "table %s: %d words" % (cpp_tab, len(cppset)), "in C++ mode fmt_identifier consults %s, which misses %s" % (cpp_tab, miss_cpp), C.loc(fi))
@@ -304,8 +311,12 @@ def run(ck, facts):
     for n in C.walk(gb):
         if n.get("k") == "letst" and isinstance(n.get("pat"), dict) and n["pat"].get("k") == "bind" and n.get("init") and C.strip(n["init"]).get("k") == "closure":
             closures[n["pat"].get("id")] = C.strip(n["init"])
+    param_ids = {p_.get("n"): p_.get("id") for p_ in (grt["hir"].get("params") or []) if isinstance(p_, dict) and p_.get("k") == "bind"}
     for name in ("ok_ty", "err_ty"):
-        is_param = lambda x: x.get("k") == "local" and x.get("n") == name and x.get("id") not in rebound.get(name, set())
+        if name in param_ids:       # the parameter itself, whatever later bindings reuse its name
+            is_param = lambda x, i_=param_ids[name]: x.get("k") == "local" and x.get("id") == i_
+        else:
+            is_param = lambda x: x.get("k") == "local" and x.get("n") == name and x.get("id") not in rebound.get(name, set())
         uses = [x for x in C.walk(gb) if is_param(x)]
         filt = []
         for n in C.walk(gb):
@@ -313,7 +324,17 @@ def run(ck, facts):
                 pred = C.strip(n["a"][0])
                 if pred.get("k") == "local":
                     pred = closures.get(pred.get("id"), pred)
-                zst = any(x.get("k") == "mcall" and x.get("m") == "is_empty" and any(y.get("k") == "field" and y.get("n") == "fields" for y in C.walk(x["recv"])) for x in C.walk_inl(tool, pred, 2))
+                nodes_ = list(C.walk_inl(tool, pred, 2))
+                is_zst_test = lambda x: x.get("k") == "mcall" and x.get("m") == "is_empty" and any(y.get("k") == "field" and y.get("n") == "fields" for y in C.walk(x["recv"]))
+                zst = any(is_zst_test(x) for x in nodes_)
+                # every kind of struct definition is asked for its fields: no arm of the match over the resolved definition answers with a constant
+                for mt_ in (x for x in nodes_ if x.get("k") == "match" and (x.get("sadt") or "").endswith("ReturnableStructDef")):
+                    for arm_ in mt_["arms"]:
+                        if C.diverges(arm_["b"]) or (arm_["pat"].get("k") in ("wild",) ):
+                            continue
+                        b_ = C.strip(arm_["b"])
+                        if not (b_.get("k") == "un" and b_.get("op") == "Not" and is_zst_test(C.strip(b_["e"]))):
+                            zst = False
                 filt.append(zst)
         ok_ = filt == [True] and len(uses) == 1
         ck.expect(ok_, "R5", "c::gen_result_ty/%s-filtered" % name, "parameter used once, as receiver of the zero-field-struct filter",
@@ -456,6 +477,26 @@ def run(ck, facts):
             ck.expect(uses_cast, "R6", "macro::param_conversion/%s/uses-cast_to" % "+".join(names), "annotated conversion depends on cast_to",
                       "the %s arm annotates its conversion with a fixed (incoming-direction) type and ignores `cast_to`: for a callback argument the Rust value is handed to the "
                       "foreign function pointer unconverted (E0308 in the macro expansion)" % "+".join(names), C.loc(pc, arm.get("ln")))
+            # ... and it is emitted whenever the whole parameter type is not FFI-safe: never nested under a test of a *part* of the type
+            # (`Option<u8>`: the payload is FFI-safe, the Option is not)
+            pt_ids = {y.get("id") for y in C.walk(mt["s"]) if y.get("k") == "local"}      # the value the arms are chosen by: the whole parameter type
+            for b_ in holders:
+                for m_, st_ in C.with_conditions(b_):
+                    if not (m_.get("k") == "macro" and m_.get("name") in ("quote", "parse_quote") and re.search(r"let\s+#name\s*:", m_.get("src", ""))):
+                        continue
+                    other = []
+                    for ent in st_:
+                        for c_ in (x for x in ent if isinstance(x, dict)):
+                            for y in C.walk(c_):
+                                if y.get("k") == "mcall" and y.get("m") == "is_ffi_safe":
+                                    r_ = C.strip(y["recv"])
+                                    while r_.get("k") in ("addr", "deref"):
+                                        r_ = C.strip(r_["e"])
+                                    if not (r_.get("k") == "local" and r_.get("id") in pt_ids):
+                                        other.append(r_.get("n") or r_.get("k"))
+                    ck.expect(not other or not pt_ids, "R6", "macro::param_conversion/%s/conversion-under-whole-type-test" % "+".join(names), "",
+                              "the %s arm emits its annotated conversion only when `%s.is_ffi_safe()` fails, a test of a part of the type: a parameter whose part is FFI-safe but which is "
+                              "not itself (Option<u8>) is handed over unconverted (E0308 in the macro expansion)" % ("+".join(names), ", ".join(map(str, other))), C.loc(pc, m_.get("ln")))
         if na < 2:
             ck.bad("R6", "macro::param_conversion/floor", "only %d annotated converting arms found (2 counted: slices/Result, Option)" % na, C.loc(pc))
     # (b) C++: argument wrappers vs fn_traits::replace
@@ -675,3 +716,130 @@ def run(ck, facts):
                                   "for context %s under the %s ABI the %s conversion expands to `%s`: unbalanced brackets %s, the generated module does not parse" % (ctx, abi, vname, text[:120], bal), C.loc(jf, arm_.get("ln")))
     if nother < 4:
         ck.bad("R5", "js::other-conversions/floor", "only %d non-slice conversion expressions evaluated (4 counted: DiplomatOption under List+Legacy, List/WriteToBuffer+CSpec, WriteToBuffer+Legacy)" % nother)
+
+    js_import_rule(ck, facts)
+    cpp_special_method_names_rule(ck, facts)
+    exact_count_rule(ck, facts)
+
+
+def js_import_rule(ck, facts):
+    """R5 (cont.): the JS backend writes one module per *enabled* type; an `add_import` of a module named by `fmt_type_name(id)` therefore needs the
+    `resolve_type(id).attrs().disable` test (which pushes an error) in the same block, as the three sibling sites in gen_js_type_str have."""
+    tool = facts.tool
+    n_direct = 0
+
+    def rec(n, blocks, f, defs):
+        nonlocal n_direct
+        if not isinstance(n, dict):
+            return
+        if n.get("k") == "block":
+            blocks = blocks + [n]
+            for st in n.get("s") or []:
+                st_ = C.strip_keep_macro(st)
+                if st_.get("k") == "letst" and (st_.get("pat") or {}).get("k") == "bind" and st_.get("init"):
+                    defs[st_["pat"]["id"]] = st_["init"]
+        if n.get("k") == "mcall" and n.get("m") == "add_import" and n.get("a"):
+            # where does the module name come from?
+            seen, todo, direct = set(), [n["a"][0]], False
+            while todo:
+                e_ = todo.pop()
+                for x in C.walk(e_):
+                    if x.get("k") == "mcall" and x.get("m") == "fmt_type_name":
+                        direct = True
+                    if x.get("k") == "local" and x.get("id") in defs and x["id"] not in seen:
+                        seen.add(x["id"])
+                        todo.append(defs[x["id"]])
+            if direct and blocks:
+                n_direct += 1
+                inner = blocks[-1]
+                tested = any(x.get("k") == "if" and any(y.get("k") == "field" and y.get("n") == "disable" for y in C.walk(x["c"]))
+                             and any(y.get("k") == "mcall" and y.get("m") == "push_error" for y in C.walk(x["t"])) for x in C.walk(inner))
+                fname = C.norm_path(f["path"]).split("::")[-1]
+                idx = sum(1 for i in ck.instances if i["rule"] == "R5" and i["key"].startswith("js::import/%s/disable-checked#" % fname))
+                ck.expect(tested, "R5", "js::import/%s/disable-checked#%d" % (fname, idx), "import of a type module next to its disabled-type test",
+                          "%s imports the module of a type named through fmt_type_name without testing `attrs().disable`: a method that uses a type disabled for js is accepted and the "
+                          "generated module imports a file that is never written (the sibling sites push `Found usage of disabled type`)" % fname, C.loc(f, n.get("ln")))
+        for c in C.children(n):
+            rec(c, blocks, f, defs)
+
+    for f in tool.fn_list:
+        if "::js::" not in f["path"] or "hir" not in f or f["path"].endswith("::add_import"):
+            continue
+        rec(C.fn_body(f), [], f, {})
+    if n_direct < 4:
+        ck.bad("R5", "js::import/floor", "only %d add_import sites named through fmt_type_name found (4 counted)" % n_direct)
+
+
+def cpp_special_method_names_rule(ck, facts):
+    """R5 (cont.): the extra C++ members a special method brings (operator==, begin(), operator+=, ...) call the generated member by the name the
+    generator gave it ({{ m.method_name }}), never by a spelled-out name: the Rust method may be called anything."""
+    text = C.read_repo("tool/templates/cpp/method_impl.h.jinja")
+    m = re.search(r"\{%-?\s*match\s+m\.method\.attrs\.special_method\b.*?%\}(.*?)\{%-?\s*endmatch", text, re.S)
+    if not m:
+        ck.bad("R5", "cpp::special-members/anchor", "special_method match not found in cpp/method_impl.h.jinja")
+        return
+    nblocks = 0
+    parts = re.split(r"\{%-?\s*when\s+(.*?)-?%\}", m.group(1), flags=re.S)
+    for i in range(1, len(parts), 2):
+        which = "+".join(re.findall(r"SpecialMethod::(\w+)", parts[i])) or parts[i].strip()
+        body = parts[i + 1]
+        plain = re.sub(r"\{\{.*?\}\}", "\x00", re.sub(r"\{%.*?%\}", "", body, flags=re.S), flags=re.S)
+        lits = []
+        for line in plain.splitlines():
+            if re.match(r"\s*inline\b", line):
+                continue        # the signature line declares the new member (operator==, begin, ...)
+            lits += [w for w in re.findall(r"(?<![\x00\w])([A-Za-z_]\w*)\s*\(", line) if w not in ("return", "if", "while", "sizeof", "static_cast", "move")]
+        if not plain.strip():
+            continue
+        nblocks += 1
+        ck.expect(not lits, "R5", "cpp::special-members/%s/calls-by-generated-name" % which, "calls only {{ m.method_name }}",
+                  "the C++ members generated for SpecialMethod::%s call `%s(..)` by a spelled-out name instead of {{ m.method_name }}: a bridge whose method has another name "
+                  "is accepted and its header does not compile" % (which, ", ".join(sorted(set(lits)))), "tool/templates/cpp/method_impl.h.jinja")
+    # a compound-assignment member (`operator+=`: the generated `{{ m.method_name }}=`) assigns to *this: it carries no qualifier after its parameter list
+    ncomp = 0
+    for rel in ("tool/templates/cpp/method_decl.h.jinja", "tool/templates/cpp/method_impl.h.jinja"):
+        t_ = C.read_repo(rel)
+        for mm in re.finditer(r"method_name\s*-?\}\}=\(", t_):
+            i_, depth = mm.end(), 1
+            while i_ < len(t_) and depth:
+                depth += {"(": 1, ")": -1}.get(t_[i_], 0)
+                i_ += 1
+            j_ = i_
+            while j_ < len(t_) and not (t_[j_] == ";" or (t_[j_] == "{" and t_[j_ + 1:j_ + 2] not in ("{", "%", "#"))):
+                j_ += 2 if t_[j_] == "{" else 1
+            tail = re.sub(r"\{#.*?#\}", "", t_[i_:j_], flags=re.S).strip()
+            ncomp += 1
+            ck.expect(not tail, "R5", "cpp::special-members/compound-assignment-unqualified/%s" % rel.split("/")[-1].split(".")[0], "",
+                      "the compound-assignment operator derived from an arithmetic special method is printed with `%s` after its parameter list: for a by-value receiver that is `const`, "
+                      "and a const member that assigns to *this does not compile" % tail[:80], rel)
+    if ncomp < 2:
+        ck.bad("R5", "cpp::special-members/compound-assignment/floor", "only %d compound-assignment members found in the C++ method templates (2 counted: declaration, definition)" % ncomp)
+    if nblocks < 3:
+        ck.bad("R5", "cpp::special-members/floor", "only %d special-method blocks with generated members found (3 counted: arithmetic, Iterable, Comparison)" % nblocks)
+
+
+def exact_count_rule(ck, facts):
+    """R5 (cont.): the special-method shapes the backends print (`operator[](i)`, `set x(v)`, ...) have a fixed arity; the validation that says
+    "must have exactly N" rejects every other count: its guard is an inequality (`len != N`), not a one-sided comparison."""
+    core = facts.core
+    f = core.fn("hir::attrs::Attrs::validate")
+    n_ = 0
+    for m_, st_ in C.with_conditions(C.fn_body(f)):
+        if not (m_.get("k") == "macro" and "exactly" in (m_.get("src") or "")):
+            continue
+        n_ += 1
+        conds = [(e[1], e[2] if len(e) > 2 else "t") for e in st_ if e[0] == "if" and isinstance(e[1], dict) and C.strip(e[1]).get("k") in ("bin", "un")]
+        ok = False
+        if conds:
+            c_, br = C.strip(conds[-1][0]), conds[-1][1]
+            neg = False
+            while c_.get("k") == "un" and c_.get("op") == "Not":
+                c_, neg = C.strip(c_["e"]), not neg
+            if br not in ("t", ("t",)):
+                neg = not neg
+            ok = c_.get("k") == "bin" and ((c_.get("op") == "Ne" and not neg) or (c_.get("op") == "Eq" and neg))
+        ck.expect(ok, "R5", "hir::Attrs::validate/exact-count-is-an-inequality#%d" % (n_ - 1), "len != count",
+                  "the check that reports `must have exactly N parameters` is not guarded by an inequality test: a special method with more (or fewer) parameters than its generated "
+                  "form has is accepted, and the backends print an operator / accessor with the wrong arity", C.loc(f, m_.get("ln")))
+    if n_ < 1:
+        ck.bad("R5", "hir::Attrs::validate/exact-count/floor", "no `must have exactly` check found in Attrs::validate (1 counted: check_param_count)", C.loc(f))
